@@ -153,8 +153,6 @@ struct SearchEnv {
     builtin: Option<(Type, Availability)>,
     function: Option<Rc<Function<()>>>,
     asked_builtin: std::cell::Cell<u8>,
-    exec_b: bool,
-    exec_c: bool,
 }
 
 impl ClassifyEnv<()> for SearchEnv {
@@ -191,8 +189,6 @@ fn check_classify(with_function: bool) {
         builtin: if has_builtin { Some((ty, avail)) } else { None },
         function: if with_function { Some(func) } else { None },
         asked_builtin: std::cell::Cell::new(0),
-        exec_b: false,
-        exec_c: false,
     };
     let slash: bool = kani::any();
     let target = if slash { classify(&env, "a/x") } else { classify(&env, "x") };
@@ -239,84 +235,8 @@ fn c02_search_order_without_function() {
     check_classify(false);
 }
 
-// ---------------------------------------------------------------------------
-// search(): the PATH walk and the statuses for unusable built-ins. PATH is the concrete
-// string "/b:/c"; which of the two candidates is an executable file is symbolic.
-// ---------------------------------------------------------------------------
-use yash_env::semantics::command::search::{Error as SearchError, PathEnv, Unusable, search};
-use yash_env::variable::Expansion;
-
-impl PathEnv for SearchEnv {
-    fn path(&self) -> Expansion<'_> {
-        Expansion::Scalar(std::borrow::Cow::Borrowed("/b:/c"))
-    }
-    fn is_executable_file(&self, path: &std::ffi::CStr) -> bool {
-        let p = path.to_bytes();
-        if p.len() == 4 && p[0] == b'/' && p[2] == b'/' && p[3] == b'x' {
-            if p[1] == b'b' {
-                return self.exec_b;
-            }
-            if p[1] == b'c' {
-                return self.exec_c;
-            }
-        }
-        false
-    }
-}
-
-fn check_search(kind: u8) {
-    // kind: 0 no built-in, 1 substitutive built-in, 2 mandatory built-in (availability symbolic)
-    let avail = if kani::any() { Availability::Available } else { Availability::NotPortable };
-    let mut env = SearchEnv {
-        builtin: match kind {
-            0 => None,
-            1 => Some((Type::Substitutive, avail)),
-            _ => Some((Type::Mandatory, avail)),
-        },
-        function: None,
-        asked_builtin: std::cell::Cell::new(0),
-        exec_b: kani::any(),
-        exec_c: kani::any(),
-    };
-    let (eb, ec) = (env.exec_b, env.exec_c);
-    let r = search(&mut env, "x");
-    let first: Option<&[u8]> = if eb { Some(b"/b/x") } else if ec { Some(b"/c/x") } else { None };
-    match kind {
-        0 => match (&r, first) {
-            (Ok(Target::External { path }), Some(want)) => assert!(path.to_bytes() == want, "C02 PATH is searched left to right"),
-            (Err(SearchError::NotFound), None) => {}
-            _ => panic!("C02 external utility: found iff some PATH entry has an executable of that name"),
-        },
-        _ => {
-            if avail == Availability::NotPortable {
-                assert!(matches!(r, Err(SearchError::Unusable(Unusable::NotPortable))), "C02 a non-portable built-in is refused");
-            } else if kind == 1 {
-                match (&r, first) {
-                    (Ok(Target::Builtin { path, .. }), Some(want)) => assert!(path.to_bytes() == want, "C02 substitutive built-in needs its external counterpart"),
-                    (Err(SearchError::Unusable(Unusable::NotInPath)), None) => {}
-                    _ => panic!("C02 substitutive built-in: usable iff an external utility of that name exists"),
-                }
-            } else {
-                assert!(matches!(&r, Ok(Target::Builtin { builtin, .. }) if builtin.r#type == Type::Mandatory), "C02 regular built-in needs no PATH search");
-            }
-        }
-    }
-    kani::cover!(kind == 0 && !eb && ec, "second PATH entry used");
-    kani::cover!(true, "each: reached");
-    std::mem::forget(r);
-    std::mem::forget(env);
-}
-
-macro_rules! search_harness {
-    ($name:ident, $k:expr) => {
-        #[kani::proof]
-        #[kani::unwind(8)]
-        #[kani::stub(<std::ffi::CString as std::default::Default>::default, empty_cstring)]
-        fn $name() {
-            check_search($k);
-        }
-    };
-}
-search_harness!(c02_search_path_external, 0);
-search_harness!(c02_search_path_substitutive, 1);
-search_harness!(c02_search_path_regular, 2);
+// NOTE (measured): harnesses for search() - the PATH walk over the concrete PATH "/b:/c" with a
+// symbolic answer for which candidate is executable, and the statuses for substitutive and
+// non-portable built-ins - ran CBMC out of memory (10 GB after 10 min, 16 GB cap): splitting
+// PATH, joining paths and building CStrings is string processing on heap data. Only classify(),
+// i.e. the search ORDER, is decided.
